@@ -45,13 +45,29 @@ impl LayerDriver {
     pub fn new(master: bool, local: u16, self_addr: bool, lvl: usize) -> Self {
         let (pipe, phys) = io::phys_pipe(None);
         let layer = Layer::new(
-            LinkModes { error_mode: LinkErrorMode::Discard, read_mode: LinkReadMode::Stream },
+            LinkModes {
+                error_mode: LinkErrorMode::Discard,
+                read_mode: LinkReadMode::Stream,
+            },
             2048,
-            if master { EndpointType::Master } else { EndpointType::Outstation },
-            if self_addr { Feature::Enabled } else { Feature::Disabled },
+            if master {
+                EndpointType::Master
+            } else {
+                EndpointType::Outstation
+            },
+            if self_addr {
+                Feature::Enabled
+            } else {
+                Feature::Disabled
+            },
             EndpointAddress::try_new(local).unwrap(),
         );
-        LayerDriver { layer, pipe, phys, lvl }
+        LayerDriver {
+            layer,
+            pipe,
+            phys,
+            lvl,
+        }
     }
 
     /// feed bytes, run the layer until it blocks, return what went up and what was written
@@ -62,7 +78,11 @@ impl LayerDriver {
         let mut payload = FramePayload::new();
         loop {
             let r = {
-                let mut fut = std::pin::pin!(self.layer.read(&mut self.phys, decode_level(self.lvl), &mut payload));
+                let mut fut = std::pin::pin!(self.layer.read(
+                    &mut self.phys,
+                    decode_level(self.lvl),
+                    &mut payload
+                ));
                 poll_once(fut.as_mut())
             };
             match r {
@@ -79,14 +99,28 @@ impl LayerDriver {
                     },
                     source: info.source.raw_value(),
                     broadcast: info.broadcast.map(|m| m.address()).unwrap_or(0),
-                    payload: if info.frame_type == FrameType::Data { payload.get().to_vec() } else { vec![] },
+                    payload: if info.frame_type == FrameType::Data {
+                        payload.get().to_vec()
+                    } else {
+                        vec![]
+                    },
                 }),
             }
         }
-        let txb: Vec<u8> = self.pipe.take_tx().into_iter().flat_map(|t| t.bytes).collect();
+        let txb: Vec<u8> = self
+            .pipe
+            .take_tx()
+            .into_iter()
+            .flat_map(|t| t.bytes)
+            .collect();
         let scan = rl::scan_close(&txb);
         let garbage = scan.error.is_some() || scan.stop != txb.len();
-        LayerRun { ups, tx: scan.frames.into_iter().map(|x| x.1).collect(), tx_garbage: garbage, error }
+        LayerRun {
+            ups,
+            tx: scan.frames.into_iter().map(|x| x.1).collect(),
+            tx_garbage: garbage,
+            error,
+        }
     }
 }
 
@@ -107,7 +141,12 @@ pub struct Expect {
 }
 
 pub fn expect(master: bool, self_addr: bool, local: u16, sec: Sec, f: &rl::Frame) -> Expect {
-    let none = Expect { up: None, reply: None, reply_constrained: true, new_sec: sec };
+    let none = Expect {
+        up: None,
+        reply: None,
+        reply_constrained: true,
+        new_sec: sec,
+    };
     // direction: must come from the opposite station type
     if f.is_from_master() == master {
         return none;
@@ -146,65 +185,138 @@ pub fn expect(master: bool, self_addr: bool, local: u16, sec: Sec, f: &rl::Frame
     match func {
         rl::F_UNCONFIRMED_DATA => {
             if fcv {
-                return Expect { reply_constrained: broadcast, ..none };
+                return Expect {
+                    reply_constrained: broadcast,
+                    ..none
+                };
             }
-            Expect { up: Some("data"), reply: None, reply_constrained: true, new_sec: sec }
+            Expect {
+                up: Some("data"),
+                reply: None,
+                reply_constrained: true,
+                new_sec: sec,
+            }
         }
         rl::F_RESET_LINK => {
             if fcv {
-                return Expect { reply_constrained: false, ..none };
+                return Expect {
+                    reply_constrained: false,
+                    ..none
+                };
             }
-            Expect { up: None, reply: Some(rl::F_ACK), reply_constrained: true, new_sec: Sec::Reset(true) }
+            Expect {
+                up: None,
+                reply: Some(rl::F_ACK),
+                reply_constrained: true,
+                new_sec: Sec::Reset(true),
+            }
         }
         rl::F_CONFIRMED_DATA => {
             if !fcv {
-                return Expect { reply_constrained: broadcast, ..none };
+                return Expect {
+                    reply_constrained: broadcast,
+                    ..none
+                };
             }
             match sec {
                 // data cannot be accepted before a reset; whether a NACK-like reply is sent is not constrained
-                Sec::NotReset => Expect { up: None, reply: None, reply_constrained: broadcast, new_sec: sec },
+                Sec::NotReset => Expect {
+                    up: None,
+                    reply: None,
+                    reply_constrained: broadcast,
+                    new_sec: sec,
+                },
                 Sec::Reset(expected) => {
                     let reply = if broadcast { None } else { Some(rl::F_ACK) };
                     if fcb == expected {
-                        Expect { up: Some("data"), reply, reply_constrained: true, new_sec: Sec::Reset(!expected) }
+                        Expect {
+                            up: Some("data"),
+                            reply,
+                            reply_constrained: true,
+                            new_sec: Sec::Reset(!expected),
+                        }
                     } else {
-                        Expect { up: None, reply, reply_constrained: true, new_sec: sec }
+                        Expect {
+                            up: None,
+                            reply,
+                            reply_constrained: true,
+                            new_sec: sec,
+                        }
                     }
                 }
             }
         }
         rl::F_REQUEST_LINK_STATUS => {
             if fcv {
-                return Expect { reply_constrained: false, ..none };
+                return Expect {
+                    reply_constrained: false,
+                    ..none
+                };
             }
-            Expect { up: Some("status_req"), reply: Some(rl::F_LINK_STATUS), reply_constrained: true, new_sec: sec }
+            Expect {
+                up: Some("status_req"),
+                reply: Some(rl::F_LINK_STATUS),
+                reply_constrained: true,
+                new_sec: sec,
+            }
         }
-        rl::F_LINK_STATUS => Expect { up: Some("status_rsp"), reply: None, reply_constrained: true, new_sec: sec },
+        rl::F_LINK_STATUS => Expect {
+            up: Some("status_rsp"),
+            reply: None,
+            reply_constrained: true,
+            new_sec: sec,
+        },
         // everything else (test link states, ack, nack, not supported, unknown): no delivery of data;
         // a reply to another primary function is not constrained by the property, replies to
         // secondary frames must not exist
-        _ => Expect { up: None, reply: None, reply_constrained: f.ctrl & rl::PRM == 0, new_sec: sec },
+        _ => Expect {
+            up: None,
+            reply: None,
+            reply_constrained: f.ctrl & rl::PRM == 0,
+            new_sec: sec,
+        },
     }
 }
 
 fn frame_s(f: &rl::Frame) -> String {
-    format!("ctrl={:#04x} dest={:#06x} src={:#06x} len={}", f.ctrl, f.dest, f.src, f.payload.len())
+    format!(
+        "ctrl={:#04x} dest={:#06x} src={:#06x} len={}",
+        f.ctrl,
+        f.dest,
+        f.src,
+        f.payload.len()
+    )
 }
 
-fn check_one(a: &ShardArgs, master: bool, self_addr: bool, local: u16, sec: Sec, f: &rl::Frame, run: &LayerRun, class: &str) {
+fn check_one(
+    a: &ShardArgs,
+    master: bool,
+    self_addr: bool,
+    local: u16,
+    sec: Sec,
+    f: &rl::Frame,
+    run: &LayerRun,
+    class: &str,
+) {
     out::eval(1);
     let e = expect(master, self_addr, local, sec, f);
     let role = if master { "master" } else { "outstation" };
     let mut bad: Vec<(&str, String)> = vec![];
     if run.error.is_some() || run.tx_garbage {
-        bad.push(("io", format!("error={:?} garbage={}", run.error, run.tx_garbage)));
+        bad.push((
+            "io",
+            format!("error={:?} garbage={}", run.error, run.tx_garbage),
+        ));
     }
     // what went up
     match (e.up, run.ups.as_slice()) {
         (None, []) => {}
         (Some(k), [u]) if u.kind == k => {
             let want_bc = if f.dest >= 0xFFFD { f.dest } else { 0 };
-            if u.source != f.src || u.broadcast != want_bc || (k == "data" && u.payload != f.payload) {
+            if u.source != f.src
+                || u.broadcast != want_bc
+                || (k == "data" && u.payload != f.payload)
+            {
                 bad.push(("delivery_content", format!("delivered {u:?}")));
             }
         }
@@ -213,7 +325,10 @@ fn check_one(a: &ShardArgs, master: bool, self_addr: bool, local: u16, sec: Sec,
     // replies
     let own_dir = if master { rl::DIR } else { 0 };
     for t in &run.tx {
-        let ok_shape = t.dest == f.src && t.src == local && (t.ctrl & rl::DIR) == own_dir && t.payload.is_empty();
+        let ok_shape = t.dest == f.src
+            && t.src == local
+            && (t.ctrl & rl::DIR) == own_dir
+            && t.payload.is_empty();
         if !ok_shape {
             bad.push(("reply_shape", format!("reply {}", frame_s(t))));
         }
@@ -221,14 +336,27 @@ fn check_one(a: &ShardArgs, master: bool, self_addr: bool, local: u16, sec: Sec,
     if e.reply_constrained {
         match (e.reply, run.tx.as_slice()) {
             (None, []) => {}
-            (Some(func), [t]) if (t.ctrl & 0x4F) == func && (t.ctrl & (rl::FCB | rl::FCV)) == 0 => {}
-            (want, got) => bad.push(("reply", format!("expected reply {want:?}, got {:?}", got.iter().map(frame_s).collect::<Vec<_>>()))),
+            (Some(func), [t]) if (t.ctrl & 0x4F) == func && (t.ctrl & (rl::FCB | rl::FCV)) == 0 => {
+            }
+            (want, got) => bad.push((
+                "reply",
+                format!(
+                    "expected reply {want:?}, got {:?}",
+                    got.iter().map(frame_s).collect::<Vec<_>>()
+                ),
+            )),
         }
     } else if run.tx.len() > 1 {
         bad.push(("reply", "more than one reply".into()));
     }
     if f.dest >= 0xFFFD && !run.tx.is_empty() {
-        bad.push(("broadcast_answered", format!("{} bytes written after a broadcast frame", run.tx.len() * 10)));
+        bad.push((
+            "broadcast_answered",
+            format!(
+                "{} bytes written after a broadcast frame",
+                run.tx.len() * 10
+            ),
+        ));
     }
     for (rule, why) in bad {
         out::violation(
@@ -274,7 +402,10 @@ fn fclass(f: &rl::Frame, local: u16) -> String {
         0xFFF0..=0xFFFB => "reserved",
         _ => "ordinary",
     };
-    format!("{func}/fcv{}/dest-{d}/src-{s}", (f.ctrl & rl::FCV != 0) as u8)
+    format!(
+        "{func}/fcv{}/dest-{d}/src-{s}",
+        (f.ctrl & rl::FCV != 0) as u8
+    )
 }
 
 pub fn run_link_table(a: &ShardArgs) -> Result<(), String> {
@@ -295,23 +426,51 @@ pub fn run_link_table(a: &ShardArgs) -> Result<(), String> {
                 }
                 for dest in dests(local) {
                     for src in srcs {
-                        for (pi, payload) in [vec![], vec![0xC0u8, 0xC1, 0x01, 0x3C, 0x01, 0x06]].iter().enumerate() {
+                        for (pi, payload) in [vec![], vec![0xC0u8, 0xC1, 0x01, 0x3C, 0x01, 0x06]]
+                            .iter()
+                            .enumerate()
+                        {
                             for sec in [Sec::NotReset, Sec::Reset(true), Sec::Reset(false)] {
-                                let lvl = (ctrl as usize + pi * 7 + dest as usize) % NUM_DECODE_LEVELS;
+                                let lvl =
+                                    (ctrl as usize + pi * 7 + dest as usize) % NUM_DECODE_LEVELS;
                                 let mut d = LayerDriver::new(master, local, self_addr, lvl);
                                 // establish the secondary state with well-formed frames from the peer
                                 let peer_dir = if master { 0 } else { rl::DIR };
                                 match sec {
                                     Sec::NotReset => {}
                                     Sec::Reset(exp) => {
-                                        let r = d.feed(&rl::Frame::new(rl::F_RESET_LINK | peer_dir, local, peer, &[]).encode());
+                                        let r = d.feed(
+                                            &rl::Frame::new(
+                                                rl::F_RESET_LINK | peer_dir,
+                                                local,
+                                                peer,
+                                                &[],
+                                            )
+                                            .encode(),
+                                        );
                                         if r.tx.len() != 1 {
-                                            return Err("setup: reset link states not acknowledged".into());
+                                            return Err(
+                                                "setup: reset link states not acknowledged".into(),
+                                            );
                                         }
                                         if !exp {
-                                            let r = d.feed(&rl::Frame::new(rl::F_CONFIRMED_DATA | peer_dir | rl::FCV | rl::FCB, local, peer, &[0xC0, 0xC0, 0x17]).encode());
+                                            let r = d.feed(
+                                                &rl::Frame::new(
+                                                    rl::F_CONFIRMED_DATA
+                                                        | peer_dir
+                                                        | rl::FCV
+                                                        | rl::FCB,
+                                                    local,
+                                                    peer,
+                                                    &[0xC0, 0xC0, 0x17],
+                                                )
+                                                .encode(),
+                                            );
                                             if r.ups.len() != 1 || r.tx.len() != 1 {
-                                                return Err("setup: first confirmed frame not delivered".into());
+                                                return Err(
+                                                    "setup: first confirmed frame not delivered"
+                                                        .into(),
+                                                );
                                             }
                                         }
                                     }
@@ -320,16 +479,45 @@ pub fn run_link_table(a: &ShardArgs) -> Result<(), String> {
                                 let run = d.feed(&f.encode());
                                 let class = fclass(&f, local);
                                 check_one(a, master, self_addr, local, sec, &f, &run, &class);
-                                out::distinct(&format!("A/{}/{}/sa{}/{:?}/{}", if master { "m" } else { "o" }, class, self_addr as u8, sec, pi));
+                                out::distinct(&format!(
+                                    "A/{}/{}/sa{}/{:?}/{}",
+                                    if master { "m" } else { "o" },
+                                    class,
+                                    self_addr as u8,
+                                    sec,
+                                    pi
+                                ));
                                 // follow-up: the layer still works — a link status request is answered
-                                let probe = rl::Frame::new(rl::F_REQUEST_LINK_STATUS | peer_dir, local, peer, &[]);
+                                let probe = rl::Frame::new(
+                                    rl::F_REQUEST_LINK_STATUS | peer_dir,
+                                    local,
+                                    peer,
+                                    &[],
+                                );
                                 let pr = d.feed(&probe.encode());
-                                if pr.tx.len() == 1 && pr.tx[0].ctrl & 0x4F == rl::F_LINK_STATUS && pr.ups.len() == 1 {
+                                if pr.tx.len() == 1
+                                    && pr.tx[0].ctrl & 0x4F == rl::F_LINK_STATUS
+                                    && pr.ups.len() == 1
+                                {
                                     out::count("link_status_answered", 1);
                                 } else {
-                                    out::violation(P, "C07.link_status_not_answered", &format!("{}|after {}", if master { "master" } else { "outstation" }, class),
-                                        J::obj(vec![("after", J::s(frame_s(&f))), ("replies", J::U(pr.tx.len() as u64))]),
-                                        J::obj(vec![("check", J::s("c07")), ("seed", J::U(a.seed))]));
+                                    out::violation(
+                                        P,
+                                        "C07.link_status_not_answered",
+                                        &format!(
+                                            "{}|after {}",
+                                            if master { "master" } else { "outstation" },
+                                            class
+                                        ),
+                                        J::obj(vec![
+                                            ("after", J::s(frame_s(&f))),
+                                            ("replies", J::U(pr.tx.len() as u64)),
+                                        ]),
+                                        J::obj(vec![
+                                            ("check", J::s("c07")),
+                                            ("seed", J::U(a.seed)),
+                                        ]),
+                                    );
                                 }
                             }
                         }
@@ -360,32 +548,350 @@ pub fn run_fcb_sequences(a: &ShardArgs) -> Result<(), String> {
                 0 => rl::Frame::new(rl::F_RESET_LINK | peer_dir, local, peer, &[]),
                 1 => rl::Frame::new(rl::F_UNCONFIRMED_DATA | peer_dir, local, peer, &r.bytes(5)),
                 2 => rl::Frame::new(rl::F_REQUEST_LINK_STATUS | peer_dir, local, peer, &[]),
-                3 if !master => rl::Frame::new(rl::F_CONFIRMED_DATA | peer_dir | rl::FCV | if r.bool() { rl::FCB } else { 0 }, 0xFFFD + r.below(3) as u16, peer, &r.bytes(4)),
-                4 => rl::Frame::new(rl::F_CONFIRMED_DATA | peer_dir | rl::FCV | if r.bool() { rl::FCB } else { 0 }, local, 2 + r.below(3) as u16, &r.bytes(4)),
-                _ => rl::Frame::new(rl::F_CONFIRMED_DATA | peer_dir | rl::FCV | if r.bool() { rl::FCB } else { 0 }, local, peer, &r.bytes(6)),
+                3 if !master => rl::Frame::new(
+                    rl::F_CONFIRMED_DATA | peer_dir | rl::FCV | if r.bool() { rl::FCB } else { 0 },
+                    0xFFFD + r.below(3) as u16,
+                    peer,
+                    &r.bytes(4),
+                ),
+                4 => rl::Frame::new(
+                    rl::F_CONFIRMED_DATA | peer_dir | rl::FCV | if r.bool() { rl::FCB } else { 0 },
+                    local,
+                    2 + r.below(3) as u16,
+                    &r.bytes(4),
+                ),
+                _ => rl::Frame::new(
+                    rl::F_CONFIRMED_DATA | peer_dir | rl::FCV | if r.bool() { rl::FCB } else { 0 },
+                    local,
+                    peer,
+                    &r.bytes(6),
+                ),
             };
             let run = d.feed(&f.encode());
             let e = expect(master, false, local, sec, &f);
-            history.push(format!("{} -> up={} tx={}", frame_s(&f), run.ups.len(), run.tx.len()));
-            check_one(a, master, false, local, sec, &f, &run, &format!("seq/{}", fclass(&f, local)));
+            history.push(format!(
+                "{} -> up={} tx={}",
+                frame_s(&f),
+                run.ups.len(),
+                run.tx.len()
+            ));
+            check_one(
+                a,
+                master,
+                false,
+                local,
+                sec,
+                &f,
+                &run,
+                &format!("seq/{}", fclass(&f, local)),
+            );
             if (f.ctrl & 0x4F) == rl::F_CONFIRMED_DATA && run.ups.iter().any(|u| u.kind == "data") {
                 out::count("confirmed_delivered", 1);
             }
-            if (f.ctrl & 0x4F) == rl::F_CONFIRMED_DATA && run.ups.is_empty() && matches!(sec, Sec::Reset(_)) {
+            if (f.ctrl & 0x4F) == rl::F_CONFIRMED_DATA
+                && run.ups.is_empty()
+                && matches!(sec, Sec::Reset(_))
+            {
                 out::count("confirmed_duplicate_suppressed", 1);
             }
             sec = e.new_sec;
         }
-        out::distinct(&format!("B/fcbseq/{}/{}", if master { "m" } else { "o" }, steps));
+        out::distinct(&format!(
+            "B/fcbseq/{}/{}",
+            if master { "m" } else { "o" },
+            steps
+        ));
         if it == 0 {
-            out::sample(J::obj(vec![("kind", J::s("FCB sequence")), ("history", J::arr(history.into_iter()))]));
+            out::sample(J::obj(vec![
+                ("kind", J::s("FCB sequence")),
+                ("history", J::arr(history.into_iter())),
+            ]));
         }
     }
     Ok(())
 }
 
 pub fn run(a: &ShardArgs) -> Result<(), String> {
-    run_link_table(a)?;
-    run_fcb_sequences(a)?;
+    if a.replay.is_none() {
+        run_link_table(a)?;
+        run_fcb_sequences(a)?;
+    }
+    run_app(a)?;
+    Ok(())
+}
+
+// ---------------------------------------------------------------------------
+// Part B (E1): application fragments from a foreign master / by broadcast
+
+use crate::verif::gen;
+use crate::verif::refcodec::app as ra;
+use crate::verif::sim::outstation::*;
+use crate::verif::sim::*;
+
+fn app_fragment(r: &mut crate::verif::rng::Rng, seq: u8) -> (Vec<u8>, &'static str) {
+    match r.below(9) {
+        0 => (
+            ra::B::request(ra::F_READ, seq).all(60, 1).done(),
+            "valid-read",
+        ),
+        1 => (
+            ra::B::request(ra::F_DIRECT_OPERATE, seq)
+                .raw(&gen::control_objects(r, 1))
+                .done(),
+            "valid-direct-operate",
+        ),
+        2 => (
+            ra::B::request(ra::F_DIRECT_OPERATE_NR, seq)
+                .raw(&gen::control_objects(r, 1))
+                .done(),
+            "valid-direct-operate-nr",
+        ),
+        3 => (vec![0xC0 | seq, 0x70], "unknown-function"),
+        4 => (vec![0xC0 | seq, ra::F_RESPONSE, 0, 0], "response-function"),
+        5 => (
+            ra::B::with_ctrl(ra::FIR | seq, ra::F_READ)
+                .all(60, 1)
+                .done(),
+            "bad-flags",
+        ),
+        6 => (
+            ra::B::request(ra::F_READ, seq).raw(&[0xEE, 1, 6]).done(),
+            "unknown-object",
+        ),
+        7 => (
+            ra::B::request(ra::F_WRITE, seq)
+                .raw(&[1, 2, 0, 0, 5, 1])
+                .done(),
+            "truncated-objects",
+        ),
+        _ => (vec![0xC0 | seq], "one-byte"),
+    }
+}
+
+async fn app_scenario(a: &ShardArgs, idx: u64) {
+    let mut r = a.rng(&format!("c07b/{idx}"));
+    let mut cfg = OutCfg::default();
+    cfg.broadcast = r.bool();
+    cfg.any_master = r.chance(1, 4);
+    cfg.self_address = r.chance(1, 4);
+    cfg.unsolicited = r.chance(1, 3);
+    cfg.decode = r.usize_below(108);
+    cfg.discard = r.bool();
+    cfg.confirm_timeout_ms = 5000;
+    let state_kind = if cfg.unsolicited { 2 } else { r.below(2) };
+    let mut rr = r.fork();
+    let mut sim = OutSim::start_with(cfg.clone(), |db| {
+        crate::verif::checks::c12::populate(db, &mut rr, 3);
+        crate::verif::checks::c12::some_events(db, &mut rr, 3, 4, 100);
+    })
+    .await;
+    let _ = sim.collect();
+    let _ = sim.mock.take();
+    let mut seq = r.below(16) as u8;
+    let state = match state_kind {
+        0 => "idle",
+        1 => {
+            // enter a solicited confirm wait
+            seq = (seq + 1) & 15;
+            let rx = sim
+                .request(
+                    &ra::B::request(ra::F_READ, seq)
+                        .all(60, 2)
+                        .all(60, 3)
+                        .all(60, 4)
+                        .done(),
+                )
+                .await;
+            let waiting = rx
+                .iter()
+                .filter_map(|x| x.fragment())
+                .any(|f| f[0] & ra::CON != 0);
+            let _ = sim.mock.take();
+            if waiting {
+                "sol-confirm-wait"
+            } else {
+                "idle"
+            }
+        }
+        _ => "unsol-confirm-wait", // the null unsolicited response is outstanding
+    };
+    let n = r.range(1, 5);
+    let mut hist = vec![];
+    for _ in 0..n {
+        seq = (seq + 1) & 15;
+        let (frag, kind) = app_fragment(&mut r, seq);
+        let (who, src, dest) = match r.below(6) {
+            0 => ("configured-master", cfg.master_addr, cfg.out_addr),
+            1 | 2 => ("other-master", 7u16, cfg.out_addr),
+            _ => {
+                let d = 0xFFFD + r.below(3) as u16;
+                (
+                    ["bcast-fffd", "bcast-fffe", "bcast-ffff"][(d - 0xFFFD) as usize],
+                    if r.chance(1, 4) { 7 } else { cfg.master_addr },
+                    d,
+                )
+            }
+        };
+        hist.push(format!(
+            "{who} src={src} dest={dest:#x} {kind} {}",
+            crate::verif::util::hex(&frag)
+        ));
+        sim.send_from(src, dest, &frag, &[]);
+        settle().await;
+        let rx = sim.collect();
+        let evs = sim.mock.take();
+        out::eval(1);
+        out::distinct(&format!(
+            "B/{who}/{kind}/{state}/bc{}/any{}",
+            cfg.broadcast as u8, cfg.any_master as u8
+        ));
+        let wrote: Vec<String> = rx.iter().map(|x| format!("{x:?}")).collect();
+        let side: Vec<String> = evs
+            .iter()
+            .filter(|(_, e)| e.is_side_effect())
+            .map(|(_, e)| format!("{e:?}"))
+            .collect();
+        let viol = |rule: &str, sig: String, why: String| {
+            out::violation(
+                P,
+                &format!("C07.{rule}"),
+                &sig,
+                J::obj(vec![
+                    ("why", J::s(why)),
+                    ("state", J::s(state)),
+                    ("history", J::arr(hist.iter().cloned())),
+                    ("written", J::arr(wrote.iter().take(3).cloned())),
+                    ("config", cfg.to_json()),
+                ]),
+                J::obj(vec![
+                    ("check", J::s("c07")),
+                    ("seed", J::U(a.seed)),
+                    ("shard", J::U(a.shard)),
+                    ("nshards", J::U(a.nshards)),
+                    ("scenario", J::U(idx)),
+                ]),
+            );
+        };
+        let is_bcast = dest >= 0xFFFD;
+        if is_bcast {
+            if !rx.is_empty() {
+                viol(
+                    "app_broadcast_answered",
+                    format!("{kind}|{state}"),
+                    format!(
+                        "{} item(s) transmitted after a broadcast fragment",
+                        rx.len()
+                    ),
+                );
+            } else {
+                out::count("broadcast_silent", 1);
+            }
+            if src != cfg.master_addr && !cfg.any_master && !side.is_empty() {
+                viol(
+                    "app_foreign_executed",
+                    format!("broadcast|{kind}"),
+                    format!("broadcast from a foreign master executed: {side:?}"),
+                );
+            }
+            if !cfg.broadcast && !side.is_empty() {
+                viol(
+                    "app_broadcast_executed_when_disabled",
+                    kind.to_string(),
+                    format!("broadcast executed although the feature is disabled: {side:?}"),
+                );
+            }
+            if cfg.broadcast && src == cfg.master_addr && kind == "valid-direct-operate-nr" {
+                if side.is_empty() {
+                    viol(
+                        "app_broadcast_not_executed",
+                        kind.to_string(),
+                        "broadcast DIRECT_OPERATE_NR from the configured master was not executed"
+                            .into(),
+                    );
+                } else {
+                    out::count("broadcast_executed", 1);
+                }
+            }
+        } else if who == "other-master" && !cfg.any_master {
+            if !rx.is_empty() {
+                viol(
+                    "app_foreign_answered",
+                    format!("{kind}|{state}"),
+                    format!(
+                        "{} item(s) transmitted in reply to a fragment from a foreign master",
+                        rx.len()
+                    ),
+                );
+            } else {
+                out::count("foreign_silent", 1);
+            }
+            if !side.is_empty() {
+                viol(
+                    "app_foreign_executed",
+                    format!("unicast|{kind}"),
+                    format!("fragment from a foreign master executed: {side:?}"),
+                );
+            }
+        } else if who == "other-master" {
+            // any-master: answered to the sender
+            for x in &rx {
+                if let Rx::Fragment { dest: d, .. } = x {
+                    if *d != src {
+                        viol(
+                            "app_reply_address",
+                            kind.to_string(),
+                            format!("reply sent to {d} instead of the requesting master {src}"),
+                        );
+                    } else {
+                        out::count("any_master_reply_ok", 1);
+                    }
+                }
+            }
+        } else {
+            for x in &rx {
+                if let Rx::Fragment { dest: d, .. } = x {
+                    if *d != cfg.master_addr {
+                        viol(
+                            "app_reply_address",
+                            kind.to_string(),
+                            format!("reply sent to {d}"),
+                        );
+                    }
+                }
+            }
+            if !rx.is_empty() {
+                out::count("configured_master_answered", 1);
+            }
+        }
+    }
+    for p in crate::verif::util::take_panics() {
+        out::violation(
+            P,
+            "C07.panic",
+            &crate::verif::util::norm_location(&p.location),
+            J::s(format!("{} at {}", p.message, p.location)),
+            J::Null,
+        );
+    }
+}
+
+pub fn run_app(a: &ShardArgs) -> Result<(), String> {
+    let only: Option<u64> = a
+        .replay
+        .as_ref()
+        .and_then(|p| super::common::replay_scenario(p));
+    let n = a.n(5000);
+    for idx in 0..n {
+        if idx % a.nshards != a.shard {
+            continue;
+        }
+        if let Some(o) = only {
+            if o != idx {
+                continue;
+            }
+        }
+        out::progress(&format!("B scenario {idx}"));
+        run_scenario(app_scenario(a, idx));
+    }
     Ok(())
 }
